@@ -148,7 +148,38 @@ theorem compile_gstmt : ∀ (fuel : Nat),
         rcases okGS_exprS_inv _ _ _ sp e hs with ⟨asp, op, isp, ity, name, isFn, r, rfl, hr, hlog⟩ |
           ⟨isp, ty, cnd, t, eb, rfl, hty, hcnd, ht, heb⟩ | ⟨isp, ty, cnd, t, rfl, hty, hcnd, ht⟩ |
           ⟨csp, cty, isp, ity, name, g, f, si, args, sw, rfl, hcase⟩ | ⟨tsp, tty, tb, ci, cb, rfl, htty, htb, hcb⟩ |
-          ⟨msp, mty, mc, arms, db, rfl, hmty, hmc, hmarms, hmdb⟩ | ⟨asp, op, isp, ity, b, i, r, rfl⟩
+          ⟨msp, mty, mc, arms, db, rfl, hmty, hmc, hmarms, hmdb⟩ | ⟨asp, op, isp, ity, b, i, r, rfl⟩ |
+          ⟨asp, op, msp', mty', b, name, r, rfl⟩
+        rotate_right
+        · -- `o.f = e`, `o.f op= e`
+          rw [okFS_memAssign] at hs
+          simp only [Bool.and_eq_true] at hs
+          obtain ⟨⟨⟨hop, hl⟩, hr⟩, _⟩ := hs
+          simp only [Frag.cdS, Frag.cdX] at hd
+          obtain ⟨f', rfl⟩ : ∃ f', fuel = f' + 1 := ⟨fuel - 1, by have := cdE_pos r; omega⟩
+          rw [wsGS_memAssign] at hws
+          simp only [Bool.and_eq_true] at hws
+          obtain ⟨hwl, hwr⟩ := hws
+          rw [compileStmt, cgS_memAssign]
+          refine bind_run _ _ _ (updS cs L (c0 ++ _) _) () _ ?_ (by simp [Expr.ty, Ty.isNull]; rfl)
+          rw [compileExpr]
+          rotate_left
+          · intro _ _ _ _ _ _ h; cases h
+          refine bind_run _ _ _ _ _ _ (compile_xexpr f' _ cs hl (by omega) L c0 env hwl) ?_
+          cases op with
+          | none =>
+            simp only [opPre, opPost]
+            refine bind_run _ _ _ _ _ _ (compile_xexpr f' r cs hr (by omega) L _ _ hwr) ?_
+            rw [emit_run_S]
+            simp only [List.append_assoc, List.nil_append]
+          | some o =>
+            have hlog : Frag.isLogical o = false := by simpa [opOK] using hop
+            simp only [opPre, opPost]
+            refine bind_run _ _ _ _ _ _ (emit_run_S _ _ _ _ _ _) ?_
+            refine bind_run _ _ _ _ _ _ (compile_xexpr f' r cs hr (by omega) L _ _ hwr) ?_
+            refine bind_run _ _ _ _ _ _ (arith_run_S _ _ _ _ _ _ hlog) ?_
+            rw [emit_run_S]
+            simp only [List.append_assoc, List.cons_append, List.nil_append]
         rotate_right
         · -- `l[i] = e`, `l[i] op= e`
           rw [okFS_idxAssign] at hs
